@@ -493,6 +493,39 @@ def generate(rng, tier):
             for cas in cassettes:
                 cases.append(trip_case(rng, next(dims), spec, LIM_DEFAULT, out_content=enc[(i + 3) % len(enc)][1],
                                        tag="encoded:" + tag, cassette=cas))
+    # 13. the FORM of the paths (all of the above are absolute paths in an existing directory): the case runs with its
+    #     scratch directory as the current directory and hands the handlers / holder.to_file a bare file name, './name',
+    #     'sub/name' (directory present), 'sub/../name', an absolute path in a sub-directory - the recorded paths, the
+    #     replayed paths and the path the holder is written to vary independently.  (a) the small region replayed form x
+    #     positional / keyword x cassette deterministically, (b) 'nosuch/name' (directory absent: cannot be opened for
+    #     writing; correspondence only, as in 9.), (c) sequences replayed into a relative path, (d) a share of the trips
+    #     above.  Drawn last: the cases above stay what they were.
+    forms = ["bare", "dot", "sub", "abs-sub", "dotdot", "abs"]
+    k = 0
+    for cas in cassettes:
+        for form in forms:
+            for mode in ("pos", "kw"):
+                d = list(next(dims))
+                d[0], d[4], d[6] = cas, mode, mode
+                k += 1
+                tag, spec = cat[k % len(cat)] if size_of(cat[k % len(cat)][1]) <= 300 else cat[1]
+                c = trip_case(rng, tuple(d), spec, LIM_DEFAULT, out_content=rng.choice(small), tag="path-form:" + tag)
+                c["path_form"] = {"play": form, "rec": forms[(k + 2) % len(forms)], "holder": forms[(k // 2) % len(forms)]}
+                cases.append(c)
+    for cas in cassettes:
+        c = trip_case(rng, next(dims), rng.choice(small), LIM_DEFAULT, tag="unwritable", cassette=cas)
+        c["unwritable"], c["pre"], c["pre_kind"], c["expect"] = True, None, "none", "unwritable"
+        c["path_form"] = {"play": "sub-missing", "rec": rng.choice(forms), "holder": rng.choice(forms)}
+        cases.append(c)
+    for form in forms[:5] if quick else forms[:5] * 3:
+        mix = [rng.choice(small) for _ in range(3)]
+        c = seq_case(mix, [0, 1, 2, 1], LIM_DEFAULT, rng.choice([None, rnd(rng.randrange(0, 400))]), "path-form")
+        c["path_form"] = {"play": form, "rec": rng.choice(forms)}
+        cases.append(c)
+    for c in cases:
+        if c["kind"] == "trip" and "path_form" not in c and not c.get("expect") and size_of(c["content"]) <= MB \
+                and rng.random() < 0.2:
+            c["path_form"] = {"play": rng.choice(forms), "rec": rng.choice(forms), "holder": rng.choice(forms)}
     # heavy trips first, then dealt round-robin so that every Coq shard gets its share of the long byte strings
     heavy = lambda c: sum(size_of(x) for x in c["contents"]) if c["kind"] == "seq" else \
         sum(size_of(st["content"]) for st in c["steps"]) if c["kind"] == "hist" else size_of(c["content"])
@@ -864,7 +897,9 @@ def direct(case, obs):
         if "RI" in written and (stale is None or not same_bytes(written["RI"], expand(stale))):
             fails.append(("input-restored-at-recorded-path", "replay wrote the file at the recorded path"))
         if "PI" not in written:
-            fails.append(("input-not-restored", "no file at the path of the replayed call"))
+            fails.append(("input-not-restored", "no file at the path of the replayed call (path given as: %s%s)" % (
+                (case.get("path_form") or {}).get("play", "abs"),
+                "; the replayed input call raised %s" % obs["play_exc"] if obs.get("play_exc") else "")))
         elif not same_bytes(written["PI"], expand(cin)):
             had = (case.get("pre") or {}).get("PI")
             fails.append(("input-bytes-differ" if had is None else "input-bytes-differ-on-existing-file",
@@ -885,7 +920,8 @@ def direct(case, obs):
                 fails.append(("output-bytes-differ:" + which, "%s content differs from the %d bytes written (got %s)" %
                               (which, size_of(content), str(h)[:120])))
             if which == "holder_rec" and not same_bytes(obs.get("holder_file"), expand(content)):
-                fails.append(("output-holder-file-differs", "holder.to_file wrote different bytes"))
+                fails.append(("output-holder-file-differs", "holder.to_file(path given as: %s) wrote different bytes: %s" %
+                              ((case.get("path_form") or {}).get("holder", "abs"), str(obs.get("holder_file"))[:80])))
     return fails
 
 
@@ -917,11 +953,15 @@ def features(case):
         f.add("replay-path-before:" + case.get("pre_kind", "none"))
         if case.get("unwritable"):
             f.add("replay-path-unwritable")
+        for side, form in sorted((case.get("path_form") or {"play": "abs", "rec": "abs", "holder": "abs"}).items()):
+            f.add("path-form:%s=%s" % (side, form))
     elif k == "seq":
         f.add("cassette:" + case["cassette"])
         f.add("seq:" + case["tag"])
         f.add("seq-steps:%d" % len(case["order"]))
         f.add("seq-before:" + ("file" if case.get("pre") is not None else "nothing"))
+        for side, form in sorted((case.get("path_form") or {"play": "abs", "rec": "abs"}).items()):
+            f.add("path-form:%s=%s" % (side, form))
         sizes = [size_of(case["contents"][i]) for i in case["order"]]
         if any(a > b for a, b in zip(sizes, sizes[1:])):
             f.add("seq:shrinking-step")
